@@ -170,6 +170,9 @@ struct Request {
     /// loop_body: the mutable locals declared before the loop that the body updates: name -> Rust type
     #[serde(default)]
     state: Vec<(String, String)>,
+    /// loop_step: the fragment starts after the last `let` of the loop body that binds this name
+    #[serde(default)]
+    after_let: Option<String>,
 }
 
 // ---------------------------------------------------------------------------------------- errors
